@@ -1,5 +1,5 @@
 """C08 — honest peers agree on keys and deliver data intact."""
-import re
+import re, os
 from vlib import core
 from vlib.core import hexs
 
@@ -209,6 +209,9 @@ def rev_words(rk):
 
 
 def run(ctx):
+    # an operation whose peer is left blocked (e.g. the other side refused a record) ends after this many seconds
+    # and is reported as FAULT for that operation (harness/common.h op_watchdog) instead of stalling the shard
+    os.environ.setdefault("VERIF_OP_TIMEOUT", "90")
     ctx.check_proofs()
     model, log = core.build_model("C08")
     if model is None:
